@@ -82,9 +82,9 @@ def make_quantity(node):
 
         nm = node.get("nm", "")
         if node.get("form") == "str":
-            s = E.as_string(node["qe"])
+            s = E.as_string(node["qe"], node.get("al", False))
             return named(nm, s) if nm and nm != s else s     # (a string expression's own name is its text)
-        fn = eval(E.as_lambda_src(node["qe"], RECMODE[0]), {})
+        fn = eval(E.as_lambda_src(node["qe"], RECMODE[0], node.get("al", False)), {})
         return named(nm, fn) if nm else fn
     field = node["q"]
     if node["k"] == "Bag":
@@ -322,6 +322,12 @@ def datum(x, g, rec=None):
         # whole numbers as Python ints (and, for selections, booleans where the value is 0 / 1)
         return {k: (int(v) if isinstance(v, float) and v == v and abs(v) != float("inf") and v == int(v) else v)
                 for k, v in d.items()}
+    if rec == "booldict":
+        # 0 / 1 as Python booleans (quantities "must be boolean or number")
+        return {k: (bool(v) if isinstance(v, float) and v in (0.0, 1.0) else v) for k, v in d.items()}
+    if rec == "negzero":
+        # zero as negative zero
+        return {k: (-0.0 if isinstance(v, float) and v == 0.0 else v) for k, v in d.items()}
     if rec == "npdict":
         # the numbers of a record as NumPy scalars (what iterating over an array or a DataFrame column yields)
         return {k: (np.float64(v) if isinstance(v, float) else v) for k, v in d.items()}
@@ -334,6 +340,8 @@ def _datum(x, g):
         "x": g.pos(x["x"]),
         "y": g.pos(x["y"]),
         "s": to_float(x["s"]),
+        "e": g.pos(x["x"]),       # (x and y once more, under names that collide with math.e / math.pi: expr.ALIAS)
+        "pi": g.pos(x["y"]),
         "c": CAT.get(c, c),
         "fa": x.get("fa", ""),
         "fm": x.get("fm", ""),
